@@ -1,7 +1,8 @@
 """C07: PROOF (access-discipline theorems on the small-step model) + TIE (lock/field
 skeleton extracted from the sources) + ORACLE (Go race detector on real goroutines
-with the real sync.Mutex)."""
-import os, re, subprocess, time
+with the real sync.Mutex) + ORACLE (write frame of every scheduler step on the shadow
+copy under the deterministic scheduler: the implementation side of C07_write_frame)."""
+import os, random, re, subprocess, time
 import vlib
 
 
@@ -54,14 +55,28 @@ def _check(pid, tier, sc, t0):
                 reports.append(dict(kind="stress", seed=vlib.SEED * 100 + i, report=out[-3000:]))
             elif p.returncode != 0:
                 reports.append(dict(kind="crash", seed=vlib.SEED * 100 + i, report=out[-3000:]))
+    # write-frame oracle: a step of a thread changes own fields only of nodes whose mutex the
+    # thread holds during the step, and the root pointer only under rootMutex
+    import conccheck
+    wf = conccheck.writeframe_check(pid, tier, sc, random.Random(vlib.SEED * 1000003 + 107))
+    if wf["build_error"]:
+        tie_broken.append(dict(kind="harness", detail="shadow build failed: " + wf["build_error"][-1500:]))
+    for e in wf["errs"]:
+        tie_broken.append(dict(kind="harness", detail="concrun -writeframe exited %d: %s" % e))
     nviol = 0
+    for v in wf["violations"]:
+        p = vlib.write_replay(pid, "conc%d" % nviol, v)
+        print("VIOLATION property=%s replay=%s" % (pid, p))
+        nviol += 1
+    nrace = 0
     for rep in reports[:3]:
         if rep["kind"] == "race":
             v = dict(property=pid, engine="race", kind="race", observed=rep["report"], seed=rep["seed"],
                      how="cd <scratch>/src && go build -race ./cmd/stress && ./stress -seed %d" % rep["seed"])
-            p = vlib.write_replay(pid, "race%d" % nviol, v)
+            p = vlib.write_replay(pid, "race%d" % nrace, v)
             print("VIOLATION property=%s replay=%s" % (pid, p))
             nviol += 1
+            nrace += 1
     if not nviol and (tie_broken or reports):
         rep = dict(property=pid, what="the machine-checked link no longer checks (or the stress run failed without a race report) and no race was observed",
                    broken=tie_broken, other_reports=reports[:2])
@@ -74,7 +89,9 @@ def _check(pid, tier, sc, t0):
                theorems=proof["theorems"], evaluations=runs * 12 * max(1, rounds // 4 + 1), distinct_nontrivial=runs * 12,
                rule="one evaluation = one round of 8 goroutines x 400 mixed operations on one (type, order) pair under the race detector; distinct = distinct (seed, type, order)",
                samples=[dict(cmd="stress -seed %d" % (vlib.SEED * 100), types="all six", orders=[4, 64])],
-               facts=facts.get("summary"), proof_problems=proof["problems"])
+               facts=facts.get("summary"), proof_problems=proof["problems"],
+               writeframe=wf.get("stats"),
+               writeframe_rule="every case (corpus + catalogues + random programs, all six key types) runs on the shadow copy with `concrun -writeframe`, once with scheduling points at Lock only and once with Unlock as a scheduling point too; steps_checked = scheduler steps whose before/after structural snapshots were diffed against the mutexes the stepping task held or acquired; a report is a C07 violation replayed by bin/check --replay")
     vlib.write_evidence(pid, tier, "proof", cov, time.time() - t0, nviol,
                         ["PARTIAL: hardware/compiler behaviour is outside any Lean model; the step from 'separated by unlock->lock of one mutex' to 'ordered by happens-before' is the Go memory model's rule for sync.Mutex"])
     return 1 if nviol else 0
